@@ -67,10 +67,9 @@ def rfcSegments (p : Bytes) : Option (List Bytes) :=
   | _ => none
 
 /-- decimal digits of a number, most significant first (`iwitoa` of a non-negative value) -/
-def decAux : Nat → Nat → Bytes → Bytes
-  | 0, _, acc => acc
-  | fuel + 1, n, acc => if n < 10 then (48 + n) :: acc else decAux fuel (n / 10) ((48 + n % 10) :: acc)
-def dec (n : Nat) : Bytes := decAux (n + 1) n []
+def dec (n : Nat) : Bytes :=
+  if h : n < 10 then [48 + n] else dec (n / 10) ++ [48 + n % 10]
+decreasing_by omega
 
 /-- RFC 6901 `array-index = %x30 / ( %x31-39 *(%x30-39) )` and its value -/
 def arrayIndex (seg : Bytes) : Option Nat :=
